@@ -63,6 +63,7 @@ for vj in sorted(glob.glob("/tmp/val/C*-m*.json")) + sorted(glob.glob("/tmp/val/
         "detected_by": checks,
     }
     json.dump(meta, open(os.path.join(dst, "meta.json"), "w"), indent=1)
+    rows = [r for r in rows if r[0] != sid]  # a later validation of the same seeded change replaces the earlier one
     rows.append((sid, prop, checks))
 with open(os.path.join(OUT, "README.md"), "w") as fh:
     fh.write("# Seeded defects and which checks catch them\n\nEach directory: `patch.diff` (applies to /repo HEAD at the time of validation), `demo/` (fails with the patch, "
